@@ -98,13 +98,16 @@ class C16(Prop):
         "restore_mapping_all_found", "restore_mapping_all_found_alloc", "hash_sites_as_modelled", "error_messages_as_in_source",
         "save_structure_bytes_as_in_source", "save_atomic_partial", "elem_dispatch_spec", "key_dispatch_spec",
         "value_dispatch_spec", "svalue_dispatch_spec", "restore_dispatch_as_in_source",
-        "nesting_and_dry_run_sites_as_modelled", "roundtrip_float_keys", "keys_distinct_with_float_keys")]
+        "nesting_and_dry_run_sites_as_modelled", "roundtrip_float_keys", "keys_distinct_with_float_keys",
+        "restore_ignores_stale_state", "save_ignores_stale_state", "reset_sites_as_modelled",
+        "restore_into_another_program_version", "size_table_capacity_ok", "table_sites_as_modelled", "saveVariableEfun_ok")]
     witness_theorems = ["NV.C16.Witness." + t for t in (
         "float_keys_collapse", "roundtripFloatKeys_Full_false", "cr_round_trips", "stray_byte_in_array_ok",
-        "inf_is_written_as_number", "same_name_saved", "same_name_variables", "old_mask_loses_the_key")]
+        "inf_is_written_as_number", "same_name_saved", "same_name_variables", "old_mask_loses_the_key",
+        "stale_counter_without_reset", "stale_table_gives_wrong_value", "stale_counter_refuses_save", "zero_capacity_with_a_table_never_ends")]
     consts = [("maxSaveSvalueDepth", "MAX_SAVE_SVALUE_DEPTH"), ("nameStatic", "NAME_STATIC"),
               ("saveExtLen", "sizeof(SAVE_EXTENSION) - 1"), ("saveExt0", "SAVE_EXTENSION[0]"), ("saveExt1", "SAVE_EXTENSION[1]"),
-              ("fillPercent", "FILL_PERCENT"), ("maxTableSize", "MAX_TABLE_SIZE"), ("mapHashTableSize", "MAP_HASH_TABLE_SIZE")]
+              ("ushrtMax", "(unsigned short)-1"), ("fillPercent", "FILL_PERCENT"), ("maxTableSize", "MAX_TABLE_SIZE"), ("mapHashTableSize", "MAP_HASH_TABLE_SIZE")]
     const_headers = ["lib/efuns/options.h", "lib/lpc/program.h", "lib/lpc/mapping.h"]
     quick_n = 1200
     thorough_n = 20000
@@ -115,15 +118,19 @@ class C16(Prop):
                  "bytes and source-statement comparisons + model/implementation correspondence under ASan/UBSan + crash-point "
                  "and failure enumeration + lookup of every entry of every printed mapping")
     level_text = ("Lean 4 theorems about an executable model of save_svalue / svalue_save_size / restore_size / "
-                  "restore_internal_size (incl. its nesting limit) / restore_array / restore_class / restore_mapping (incl. the "
-                  "hash table: bucket choice, growMap in the middle of a restore, lookup) / restore_string / parse_numeric / "
-                  "restore_svalue / safe_restore_svalue and of the line format, the dry run and the call script of save_object / "
-                  "restore_object over the real program trees (lib/lpc/object.c, lib/lpc/mapping.c), for all values, ALL byte "
-                  "strings, all crash points (also inside a call), every hash function; floats and mblen are parameters with "
-                  "stated contracts; the model is tied to the source by regenerated constants / tables / statement comparisons "
-                  "with bridging lemmas and by running the real efuns and the model on the same generated values, truncated / "
-                  "mutated / endlessly nested texts and crash points (traces identical); the Lean oracle judges every "
-                  "implementation trace, incl. that every entry of a restored mapping is found through its key")
+                  "restore_internal_size (incl. its nesting limit and the size table with its capacity loops) / restore_array / "
+                  "restore_class / restore_mapping (incl. the hash table: bucket choice, growMap in the middle of a restore, "
+                  "lookup) / restore_string / parse_numeric / restore_svalue / safe_restore_svalue (incl. the file-scope state "
+                  "an LPC error leaves behind: every entry point proved independent of it) and of the line format, the dry run "
+                  "and the call script of save_object / restore_object over the real program trees, incl. restore into ANOTHER "
+                  "program version (any two variable tables), for all values, ALL byte strings, all crash points (also inside a "
+                  "call), every hash function; floats and mblen are parameters with stated contracts; the model is tied to the "
+                  "source by regenerated constants / tables / statement comparisons (comment- and layout-insensitive, each "
+                  "naming its site) / the nm inventory of file-scope variables, with bridging lemmas, and by running the real "
+                  "efuns and the model on the same generated values, truncated / mutated / endlessly nested texts, poisoned "
+                  "shared state, crash points, file-size limits inside stdio blocks and real rename failures (traces "
+                  "identical); the Lean oracle judges every implementation trace, incl. that every entry of a restored mapping "
+                  "is found through its key and that a restore into another program matches by name")
     level_note = ("trusted: Lean kernel; extract.py; the correspondence harness (differential: only generated cases; "
                   "stdio-level interposition, rename() atomic by assumption, a crash inside a call is a theorem only); FloatOps / "
                   "MbLen contracts are hypotheses (validated on generated floats / UTF-8 by the run); hash-table ORDER of a saved "
@@ -147,8 +154,8 @@ class C16(Prop):
                    "restore are not modelled (the hash-table theorems start from a power-of-two table)",
                    "hash-table layout of a SAVED mapping (the order of entries in the saved text) is abstracted to a list order; "
                    "traces are compared after sorting entries",
-                   "a crash inside a stdio call (partial write of a block) is covered by a theorem over the file-system model only; "
-                   "on the real driver failures / crashes are injected at stdio-call granularity",
+                   "inside a stdio block the real driver is observed under file-size limits (partial write then failure / kill), "
+                   "not at every byte; rename() is atomic by assumption",
                    "non-UTF-8 multibyte locales (MbLen.cont fails for Big5/GBK/Shift-JIS; the driver always selects UTF-8)",
                    "msameval() identifies a float key with the integer key of the same bit pattern (0.0 / 0): values "
                    "with such key pairs are not generated",
@@ -245,13 +252,18 @@ class C16(Prop):
         if not mv or not mt or not mf:
             raise X.TieBroken("site:buffers", "var[] / tmp_name[] / the .tmp format not recognised")
         rc = open(os.path.join(E.REPO, "lib/rc/rc.cpp")).read()
+        m3 = re.search(r'"MaxStringLength",\s*\d+,\s*(\d+)\)', rc)
+        if not m3:
+            raise X.TieBroken("const:MaxStringLength", "default of MaxStringLength not found in lib/rc/rc.cpp")
         m2 = re.search(r'"MaxArraySize",\s*\d+,\s*(\d+)\)', rc)
         if not m2:
             raise X.TieBroken("const:MaxArraySize", "default of MaxArraySize not found in lib/rc/rc.cpp")
         # hash-table sites of restore_mapping / growMap / the lookup, as modelled in NV/C16/Hash.lean
         rm = section("static int restore_mapping (char **str", "static int restore_class", "restore_mapping")
         maph = open(os.path.join(E.REPO, "lib/lpc/mapping.h")).read()
-        ws = lambda t: re.sub(r"\s+", " ", t)
+        # statements are compared after dropping comments and collapsing white space: a reworded comment or a re-indented
+        # line is not a change of the code
+        ws = lambda t: re.sub(r"\s+", " ", re.sub(r"//[^\n]*", " ", re.sub(r"/\*.*?\*/", " ", t, flags=re.S)))
         rmw, mapw = ws(rm), ws(mapc)
         msh = re.search(r"#define\s+MAP_POINTER_HASH\(x\)\s+\(\(intptr_t\)x >> (\d+)\)", maph)
         hash_sites = {
@@ -259,7 +271,7 @@ class C16(Prop):
             "growth branch": ("else if (!(--m->unfilled)) { if (growMap (m)) { a = m->table; if (oi & ++mask) elt2 = a[i |= mask]; "
                               "mask <<= 1; mask--; }") in rmw,
             "link": "(a[i] = elt)->next = elt2;" in rmw,
-            "initial mask": "a = m->table; /* we'll leak */ mask = m->table_size;" in rmw,
+            "initial mask": "a = m->table; mask = m->table_size;" in rmw,
             "growMap split": "if (node_hash (elt) & oldsize) { *eltp = elt->next; if (!(elt->next = *b)) m->unfilled--; *b = elt; elt = *eltp; }" in mapw,
             "growMap limit": "if (newsize > MAX_TABLE_SIZE) return 0;" in mapw,
             "lookup": "i = svalue_to_int (lv) & m->table_size; for (elt = a[i]; elt; elt = elt->next) { if (msameval (elt->values, lv)) return elt; }" in mapw,
@@ -338,9 +350,97 @@ class C16(Prop):
                        "true" if all(nest_sites.values()) else "false", top_args[0] if top_args else "0",
                        ", ".join("%s=%s" % (k, "yes" if v else "NO") for k, v in dry_sites.items()),
                        "true" if all(dry_sites.values()) else "false"))
+        # ---- the file-scope state of the two anchor files (what the linker sees: `nm` on the objects of this build) and
+        # the reset of the shared container counter at the head of every entry point
+        KNOWN_STATE = {
+            "save_svalue_depth": "protocol", "save_svalue_sizes": "protocol", "save_max_depth": "protocol",
+            "sel": "constant cache (strlen (SAVE_EXTENSION), computed once)",
+            "tmp_name": "scratch buffer of save_object (written before it is read in every call)",
+            "hashed_living": "other", "num_living_names": "other", "num_searches": "other", "search_length": "other",
+            "sent_free": "other", "tot_alloc_object": "other", "tot_alloc_object_size": "other", "tot_alloc_sentence": "other",
+            "free_nodes": "other", "mapping_node_blocks": "other", "g_u_m_list": "other", "num_mappings": "other",
+            "total_mapping_nodes": "other", "total_mapping_size": "other"}
+        region = src[src.find("int save_svalue_depth"):src.find("void tell_npc")]
+        state, new_state = [], []
+        for fn in ("object.c.o", "mapping.c.o"):
+            obj = os.path.join(bdir, "lib/lpc/CMakeFiles/lpc.dir", fn)
+            if not os.path.exists(obj):
+                raise X.TieBroken("site:file-scope-state/object-file-not-found", "no %s in this build: the inventory of "
+                                  "file-scope variables cannot be taken" % obj)
+            for l in E.run(["nm", obj]).stdout.splitlines():
+                t = l.split()
+                if len(t) == 3 and t[1] in "BbDdCc" and not t[2].startswith(("__", ".", "_ZL")) and "asan" not in t[2]:
+                    name = t[2].split(".")[0]
+                    cls = KNOWN_STATE.get(name)
+                    if cls is None:
+                        # a new file-scope variable matters only when the save / restore code itself mentions it
+                        cls = "UNCLASSIFIED" if re.search(r"\b%s\b" % re.escape(name), region) else "other"
+                        if cls == "UNCLASSIFIED":
+                            new_state.append(name)
+                    state.append((fn[:-2], name, cls))
+        if new_state:
+            raise X.TieBroken("site:file-scope-state/" + new_state[0],
+                              "the save / restore code of lib/lpc/object.c uses file-scope variables the model does not know: %s "
+                              "(is each one reset at every entry point? see NV/C16/Globals.lean)" % ", ".join(new_state))
+        def fn_body(start, end):
+            return ws(section(start, end, start))
+        def starts_with_reset(body):
+            # the first statement after the declarations of the function
+            return re.search(r"\{ (?:(?:int|char|svalue_t|size_t) [^;{}]*; )*save_svalue_depth = 0;", body) is not None
+        b_rs = fn_body("int restore_svalue (char *cp, svalue_t * v) {", "int safe_restore_svalue")
+        b_srs = fn_body("int safe_restore_svalue (char *cp, svalue_t * v) {", "static int fgv_recurse")
+        objw = ws(src)
+        size_calls = [m.start() for m in re.finditer(r"svalue_save_size \((?!const)", objw)]
+        inner = objw.find("size_t svalue_save_size (const svalue_t * v)"), objw.find("void save_svalue (svalue_t * v, char **buf)")
+        outer_calls = [i for i in size_calls if not (inner[0] <= i < inner[1])]
+        top_dispatch = [m.start() for m in re.finditer(r"restore_(?:array|mapping|class) \(&cp,", objw)]
+        reset_sites = {
+            "restore_svalue starts with the reset": starts_with_reset(b_rs),
+            "safe_restore_svalue starts with the reset": starts_with_reset(b_srs),
+            "every top-level dispatch to restore_array/mapping/class sits in one of the two": bool(top_dispatch) and all(
+                objw.find("int restore_svalue (char *cp, svalue_t * v) {") < i < objw.find("static int fgv_recurse") for i in top_dispatch),
+            "every outer call of svalue_save_size is preceded by the reset": len(outer_calls) == 2 and all(
+                objw[:i].rstrip().endswith(("save_svalue_depth = 0; theSize =",)) for i in outer_calls),
+        }
+        state_txt = ("/-- file-scope variables of lib/lpc/object.c and lib/lpc/mapping.c (`nm` on the objects of this build) with their\n"
+                     "    role for the save / restore code -/\ndef fileScopeState : List (String × String × String) := [%s]\n"
+                     "/-- %s -/\ndef resetSitesAsModelled : Bool := %s"
+                     % (", ".join('("%s", "%s", "%s")' % x for x in state),
+                        ", ".join("%s=%s" % (k, "yes" if v else "NO") for k, v in reset_sites.items()),
+                        "true" if all(reset_sites.values()) else "false"))
+        # the size table: allocation / growth in restore_internal_size (two copies), release in the two entry points
+        inits = re.findall(r"if \(!save_svalue_sizes\) \{ save_max_depth = (\d+); while \(save_max_depth <= depth\) save_max_depth <<= 1; "
+                           r"save_svalue_sizes = CALLOCATE \(save_max_depth, int,", ris)
+        table_sites = {
+            "allocation (both closing branches)": len(inits) == 2 and len(set(inits)) == 1,
+            "growth doubles before it tests (both)": ris.count("else if (depth >= save_max_depth) { while ((save_max_depth <<= 1) <= depth); "
+                                                               "save_svalue_sizes = RESIZE (save_svalue_sizes, save_max_depth, int,") == 2,
+            "entry written after the capacity is ensured (both)": ris.count("save_svalue_sizes[depth] = size; return 1;") == 2,
+            "release resets pointer and capacity together (both entry points)": objw.count(
+                "if (save_svalue_depth) { save_svalue_depth = save_max_depth = 0; if (save_svalue_sizes) FREE ((char *) save_svalue_sizes); "
+                "save_svalue_sizes = (int *) 0; }") == 2,
+        }
+        state_txt += ("\n/-- the size table: %s -/\ndef tableSitesAsModelled : Bool := %s\n"
+                      "/-- `save_max_depth = N` of a fresh table -/\ndef sizeTableInitial : Nat := %s"
+                      % (", ".join("%s=%s" % (k, "yes" if v else "NO") for k, v in table_sites.items()),
+                         "true" if all(table_sites.values()) else "false", inits[0] if inits else "0"))
+        svw = ws(src[src.find("char* save_variable (svalue_t * var)"):src.find("static void cns_just_count")])
+        msv = re.search(r'save_svalue_depth = 0; theSize = svalue_save_size \(var\); if \(theSize - 1 > \(size_t\)CONFIG_INT '
+                        r'\(__MAX_STRING_LENGTH__\)\) error \("((?:[^"\\]|\\.)*)"\); new_str = new_string \(theSize - 1,', svw)
+        limit_sites = {"save_variable tests the size against MaxStringLength before it allocates": msv is not None}
+        state_txt += ("\n/-- save_variable(): `if (theSize - 1 > MaxStringLength) error (..)` in front of the allocation; its message; the\n"
+                      "    default of MaxStringLength (lib/rc/rc.cpp; the harness does not override it) -/\n"
+                      "def saveVariableLimitMessage : String := %s\ndef maxStringLength : Nat := %s"
+                      % ('"' + (msv.group(1)[:-2] if msv and msv.group(1).endswith("\\n") else (msv.group(1) if msv else "")) + '"', m3.group(1)))
+        broken = [(g, k) for g, d in (("save_variable-limit", limit_sites), ("size-table", table_sites), ("hash-table", hash_sites), ("nesting-limit", nest_sites), ("dry-run", dry_sites),
+                                       ("counter-reset", reset_sites)) for k, v in d.items() if not v]
+        if broken:
+            raise X.TieBroken("site:%s/%s" % broken[0],
+                              "statements of the source that no longer read as the model mirrors them: " +
+                              "; ".join("%s: %s" % b for b in broken))
         lstr = lambda x: '"' + x.replace("\\", "\\\\").replace('"', '\\"') + '"'
         return "\n".join([
-            dispatch, nest_txt,
+            dispatch, nest_txt, state_txt,
             "/-- restore_variable(): `if (rc & ROB_x) error (msg)` chain, in order -/\ndef restoreVariableMessages : List (String × String) := [%s]"
             % ", ".join("(%s, %s)" % (lstr(a), lstr(b)) for a, b in rv_msgs),
             "/-- restore_object_from_buff(): the same chain with the variable name (`%%s`) -/\n"
@@ -424,7 +524,12 @@ class C16(Prop):
                     l = "useg %s/%s" % (base, t[1])
                 lines.append(l)
             hc.append(E.Case(c.id, lines))
-        res = E.run_harness(self.exe, self.conf, hc, ctx.rundir)
+        # a case of this property runs for milliseconds (the largest boundary texts for < 1 s under ASan): a per-case limit of
+        # 10 s instead of vh's 30 s keeps a tree that HANGS in many cases from eating the harness wall-clock limit
+        # (and the whole batch gets 5 minutes in the quick tier - ten times what the unchanged tree needs under load -
+        # instead of 15: what did not run by then is reported as crashed, a verdict with a replay)
+        res = E.run_harness(self.exe, self.conf, hc, ctx.rundir, args=("--timeout", "10"),
+                            timeout=300 if getattr(ctx, "tier", "quick") == "quick" else 1800)
         for path in made:
             shutil.rmtree(path, ignore_errors=True)
         self.last_impl.update({k: self.canon(v) for k, v in res.items()})
@@ -539,22 +644,22 @@ class C16(Prop):
                 lines += ["setm " + vtxt(("a", [("i", rng.range(1000, 9999))] * n)), "cp %d" % rng.below(2), "cf 1"]
         return lines
 
-    def gen_progs(self, rng, allow_dups):
+    def gen_progs(self, rng, allow_dups, prefix="p"):
         """random inheritance graph: up to 6 programs, depth <= 3 below the top, static / plain / private / public inherits
         at every level, static variables in the middle; with allow_dups also variables of one name at two levels and
         a program inherited twice"""
         k = rng.range(2, 6)
         progs, depth = {}, {}
         for i in range(k):
-            name = "p%d" % i
+            name = "%s%d" % (prefix, i)
             inhs = []
-            cands = [j for j in range(i) if depth["p%d" % j] < 3]
+            cands = [j for j in range(i) if depth["%s%d" % (prefix, j)] < 3]
             if cands and (i == k - 1 or rng.chance(2, 3)):
                 for _ in range(rng.weighted([(1, 5), (2, 3), (3, 1)])):
                     j = rng.choice(cands)
-                    if any(x[1] == "p%d" % j for x in inhs) and not allow_dups:
+                    if any(x[1] == "%s%d" % (prefix, j) for x in inhs) and not allow_dups:
                         continue
-                    inhs.append((rng.weighted([("n", 5), ("s", 4), ("p", 1), ("u", 1)]), "p%d" % j))
+                    inhs.append((rng.weighted([("n", 5), ("s", 4), ("p", 1), ("u", 1)]), "%s%d" % (prefix, j)))
             depth[name] = 1 + max([depth[x[1]] for x in inhs] + [0])
             vars_ = []
             for q in range(rng.weighted([(0, 1), (1, 3), (2, 4), (3, 3), (4, 1)])):
@@ -565,12 +670,12 @@ class C16(Prop):
                     continue
                 vars_.append((rng.weighted([("n", 6), ("s", 3), ("p", 2), ("sp", 1), ("u", 1), ("t", 1)]), vn))
             progs[name] = (inhs, vars_)
-        top = "p%d" % (k - 1)
+        top = "%s%d" % (prefix, k - 1)
         if not allow_dups:
             # a diamond puts the same program (hence the same names) twice into the object: only with allow_dups
             names = [x[0] for x in self.layout(progs, top)]
             if len(set(names)) != len(names):
-                return self.gen_progs(rng, allow_dups)
+                return self.gen_progs(rng, allow_dups, prefix)
         return progs, top
 
     # allocate_mapping(n) gives restore_mapping a table of 8 buckets for n <= 8 pairs, else the next power of two above
@@ -606,6 +711,51 @@ class C16(Prop):
             lines.append("rx %s %s" % (vtxt(w), save_text(w).hex()))
         if rng.chance(1, 3):
             lines.append("rt " + vtxt(v))
+        return lines
+
+    # ---- stale shared state: an operation that ends in an LPC error (or `poison`), then every entry point ----------
+    def failing_op(self, rng):
+        """lines of an operation that raises an LPC error in mid-flight and so leaves the shared container counter set"""
+        k = rng.weighted([("poison", 5), ("deep-save", 3), ("deep-save-object", 2), ("array-too-large", 2)])
+        if k == "poison":
+            return ["poison %d" % rng.choice([1, 2, 3, 5, 24, 25, 26, 27, 100, 70000])]
+        if k == "deep-save":
+            return ["use obj", "rt " + vtxt(self.nest(rng.range(26, 28), rng.choice(["a", "m", "mix", "c"])))]
+        if k == "deep-save-object":
+            a = ["i%d" % rng.range(1, 9)] * 5
+            a[rng.below(5)] = vtxt(self.nest(26, rng.choice(["a", "m", "mix"])))
+            return ["use obj", "set " + " ".join(a), "so %d" % rng.below(2)]
+        inner = rng.choice([b"({" + b"1," * 20000 + b"})", b"({({" + b"1," * 20000 + b"}),})"])
+        pre = rng.choice([b"({({1,2,3,}),", b'(["a":({1,}),"b":', b"({({}),({({2,}),}),"])
+        return ["use obj", "rv " + (pre + inner + (b",})" if pre.startswith(b"({") else b",])")).hex()]
+
+    def entry_op(self, rng):
+        """lines of a valid operation through one entry point of the save / restore code; the oracle knows its result"""
+        k = rng.weighted([("rx", 4), ("rt", 3), ("so-ro", 3), ("rox", 4), ("son", 1)])
+        def val():
+            v = self.gen_value(rng, 0, 3)
+            while not self.rx_ok(v) or v[0] not in "amc":
+                v = ("a", [("i", rng.range(1, 99)), self.gen_value(rng, 1, 3)])
+                if not self.rx_ok(v):
+                    v = ("a", [("i", 1), ("a", [("i", 2), ("m", [(("i", 3), ("a", []))])])])
+            return v
+        if k == "rx":
+            v = val()
+            return ["use obj", "rx %s %s" % (vtxt(v), save_text(v).hex())]
+        if k == "rt":
+            return ["use obj", "rt " + vtxt(val())]
+        if k == "so-ro":
+            vals = [val() for _ in range(5)]
+            return ["use obj", "set " + " ".join(vtxt(v) for v in vals), "so %d" % rng.below(2), "set i1 i2 i3 i4 i5",
+                    "ro %d" % rng.below(2)]
+        if k == "son":
+            return ["use obj", "set i1 i2 i3 i4 i5", "son %s 0 %s" % (b"/c16/data/st".hex(), b"c16/data/st.o".hex())]
+        return self.renamed_case(rng, 24 if rng.chance(1, 3) else 7)[1:]
+
+    def stale_lines(self, rng):
+        lines = []
+        for _ in range(rng.range(2, 4)):
+            lines += self.failing_op(rng) + self.entry_op(rng)
         return lines
 
     def rx_ok(self, v):
@@ -762,6 +912,12 @@ class C16(Prop):
             "rv " + deep(300).hex(), "rv " + (b"({" * 150000).hex(), "rv " + (b"([" * 150000).hex(),
             "rv " + (b"({([1:(/" * 50000).hex(), "rv " + (b'(["a":' * 100000).hex(), "rt a[i1,a[i2]]",
             "set i1 i2 i3 i4 i5", "wf " + (b"#/c16/obj.c\nvi 7\nva " + b"({" * 150000 + b"\nvb 5\n").hex(), "ro 1", "ro 0"])
+        # save_variable refuses a text longer than MaxStringLength (200000: a string of 199998 bytes is the longest)
+        mk("save-variable-length-limit", ["rt s" + "61" * n for n in (199998, 199999)] + ["rt a[i1,i2]"])
+        # an array_t counts its members in an unsigned short: a class text with more than 65535 members is refused (it came
+        # back with the count truncated: 65536 members as a class of none)
+        mk("class-member-count", ["rv " + (b"(/" + b"1," * n + b"/)").hex() for n in (65535, 65536)] +
+           ["rv " + (b"({(/" + b"1," * 65537 + b"/),})").hex(), "rt c(i1,i2)"])
         mk("restore-after-error", ["rv " + ("({({1,2,3,}),({" + "1," * 20000 + "}),})").encode().hex(),
                                    "rx a[i1,i2] " + b"({1,2,})".hex(), "rx c(i1,i2) " + b"(/1,2,/)".hex(),
                                    "rx m{i1:i2} " + b"([1:2,])".hex(), "rt a[i1,i2]"])
@@ -838,6 +994,14 @@ class C16(Prop):
         T3 = {"r0": ([], [("n", "x"), ("n", "y")]), "r1": ([("s", "r0")], [("n", "z")]), "r2": ([("n", "r1")], [("n", "w")]),
               "r3": ([("s", "r2")], [("n", "v")])}
         B.append(E.Case("b-static-chain", self.tree_case_lines(E.Rng(23), T3, "r3", ["so", "ro", "cp"]), {"origin": "boundary"}))
+        # version 1 saved, version 2 restores: `b` moved into an inherited program, `a` now static (nosave), `gone` removed,
+        # `c` new, `s` no longer static, a statically inherited copy of the old base
+        V1 = {"u0": ([], [("n", "a"), ("n", "b")]), "u1": ([("n", "u0")], [("n", "gone"), ("s", "s"), ("p", "priv")])}
+        V2 = {"w0": ([], [("n", "b"), ("p", "priv")]), "w1": ([], [("n", "x")]),
+              "w2": ([("n", "w0"), ("s", "w1")], [("s", "a"), ("n", "c"), ("n", "s")])}
+        mk("another-program-version", self.prog_lines(V1) + self.prog_lines(V2) +
+           ["useg u1", "setm a[i5,s78,i7,i9,s70]", "so 0", "useg w2", "setm a[i1,i2,i3,i4,i6,i8]", "ro 1",
+            "setm a[i1,i2,i3,i4,i6,i8]", "ro 0", "so 1", "useg u1", "setm a[i0,i0,i0,i0,i0]", "ro 0"])
         T4 = {"s0": ([], [("p", "x"), ("n", "k")]), "s1": ([("n", "s0")], [("n", "x"), ("s", "k")])}
         mk("same-name-static-twin", self.prog_lines(T4) + ["useg s1", "setm a[i1,i2,i3,i4]", "so 1", "setm a[i5,i6,i7,i8]", "ro 1"])
         # variable names against `char var[100]`: 98, 99 (fit), 100, 101 (refused) characters; very long lines
@@ -859,6 +1023,39 @@ class C16(Prop):
                             "setm " + vtxt(("a", [("i", 80 + k) for k in range(24)])), "ro 0"])
         mk("crash-points", ["set i1 s61 a[i1,i2] i7 m{i1:i2}", "so 0", "set i2 s62 a[i3] i8 m{}", "cp 0", "cf 0",
                             "ro 0"])
+        # a file-size limit hits the save inside a stdio block (files of < 1, 2 and 3 blocks of 4096 bytes); a rename
+        # that fails for real (the save path is a directory); two objects whose long paths share one temporary
+        big = vtxt(("a", [("s", [0x78] * 3000), ("s", [0x79] * 3000)]))
+        mk("size-limits", ["set i1 s61 a[i1,i2] i7 m{i1:i2}", "cl 0", "so 0", "set i2 s62 a[i3] i8 m{}", "cl 0", "cl 1",
+                           "set i1 s61 %s i7 m{i1:i2}" % big, "cl 0", "so 1", "set i2 %s %s i8 i9" % (big, big), "cl 1",
+                           "use many", "setm " + vtxt(("a", [("s", [0x61 + k] * 400) for k in range(24)])), "cl 0"])
+        mk("rename-fails", ["set i1 i2 i3 i4 i5", "mkd " + b"c16/data/isdir.o".hex(),
+                            "sond %s 0 %s" % (b"/c16/data/isdir".hex(), b"c16/data/isdir.o".hex()),
+                            "mkd " + b"c16/data/isdir.o".hex(),
+                            "sond %s 1 %s" % (b"/c16/data/isdir.c".hex(), b"c16/data/isdir.o".hex()),
+                            "son %s 0 %s" % (b"/c16/data/notdir".hex(), b"c16/data/notdir.o".hex())])
+        shared = "c16/data/" + "/".join(["e" * 60] * 3) + "/" + "p" * 70
+        mk("shared-temporary", ["set i1 i2 i3 i4 i5", "mkd " + ("c16/data/" + "/".join(["e" * 60] * 3)).encode().hex()] +
+           ["son %s %d %s" % (("/" + shared + sfx).encode().hex(), i % 2, (shared + sfx + ".o").encode().hex())
+            for i, sfx in enumerate(["A", "B", "A", "BB", ""])])
+        # every entry point entered with the state an earlier failed operation leaves in the shared counter
+        ok_text = b"({1,({2,([3:({}),]),}),})"
+        ok_val = "a[i1,a[i2,m{i3:a[]}]]"
+        st = []
+        for d in (1, 2, 3, 25, 26, 27, 1000, 70000):
+            st += ["poison %d" % d, "rx %s %s" % (ok_val, ok_text.hex()), "poison %d" % d, "rt " + ok_val,
+                   "poison %d" % d, "set i1 %s %s i4 m{i1:a[i2]}" % (ok_val, ok_val), "so %d" % (d % 2),
+                   "set i9 i9 i9 i9 i9", "poison %d" % d, "ro %d" % (d % 2), "poison %d" % d, "ro %d" % (1 - d % 2)]
+        mk("stale-counter-every-entry-point", st)
+        fail_save = "rt " + vtxt(self.nest(26))
+        fail_rest = "rv " + (b"({({1,2,3,}),({" + b"1," * 20000 + b"}),})").hex()
+        nat = []
+        for f in (fail_save, fail_rest):
+            nat += [f, "rx %s %s" % (ok_val, ok_text.hex()), f, "rt " + ok_val,
+                    "set i1 %s %s i4 m{i1:a[i2]}" % (ok_val, ok_val), f, "so 0", "set i9 i9 i9 i9 i9", f, "ro 1", f, "ro 0",
+                    f, "wf " + (b"#/c16/obj.c\nva " + ok_text + b"\nvc ([1:({2,}),])\n").hex(), f, "ro 1", f,
+                    "set i1 %s i2 i3 i4" % vtxt(self.nest(26)), "so 0", "ro 1"]
+        mk("after-a-failed-operation", nat)
         mk("crash-points-nofile", ["set i1 s61 a[i1,i2] i7 m{i1:i2}", "cp 1", "cf 1"])
         mk("crash-points-zeros", ["set i0 i0 i0 i0 i0", "so 1", "set i1 i0 i0 i0 i0", "cp 0", "cf 0", "cp 1"])
         return B
@@ -888,8 +1085,23 @@ class C16(Prop):
 
     def gen_case(self, rng, cid, tier):
         kind = rng.weighted([("rt", 8), ("malformed", 8), ("trunc-all", 1), ("object", 3), ("crash", 1), ("renamed", 2),
-                             ("many", 1), ("names", 1), ("tree", 5), ("mapgrow", 3)])
+                             ("many", 1), ("names", 1), ("tree", 5), ("mapgrow", 3), ("stale", 3), ("tree2", 2)])
         lines = ["rm"]
+        if kind == "tree2":
+            # saved by one program tree, restored into ANOTHER one (another version: variables of the same names moved
+            # between inherited programs, made static / non-static, removed, added)
+            pa, ta = self.gen_progs(rng, False, "p")
+            pb, tb = self.gen_progs(rng, False, "q")
+            na, nb = len(self.layout(pa, ta)), len(self.layout(pb, tb))
+            va = vtxt(("a", [self.gen_scalar(rng) if rng.chance(3, 4) else ("i", 0) for _ in range(na)]))
+            vb = vtxt(("a", [self.gen_scalar(rng) for _ in range(nb)]))
+            lines += self.prog_lines(pa) + self.prog_lines(pb) + ["useg " + ta, "setm " + va, "so %d" % rng.below(2),
+                                                                  "useg " + tb, "setm " + vb, "ro %d" % rng.below(2)]
+            if rng.chance(1, 2):
+                lines += ["so %d" % rng.below(2), "useg " + ta, "ro %d" % rng.below(2)]
+            return E.Case(cid, lines, {"origin": "generated", "kind": kind})
+        if kind == "stale":
+            return E.Case(cid, lines + self.stale_lines(rng), {"origin": "generated", "kind": kind})
         if kind == "mapgrow":
             for _ in range(rng.range(2, 5)):
                 lines += self.grow_lines(rng)
@@ -974,6 +1186,11 @@ class C16(Prop):
             z = rng.below(2)
             lines.append("cp %d" % z)
             lines.append("cf %d" % z)
+            if rng.chance(1, 2):
+                if rng.chance(1, 3):        # a save file of several stdio blocks
+                    vals[rng.range(1, 4)] = ("a", [("s", [rng.range(0x61, 0x7a)] * rng.range(1500, 6000)), ("i", 5)] * rng.range(1, 3))
+                    lines.append("set " + " ".join(vtxt(v) for v in vals))
+                lines.append("cl %d" % z)
         return E.Case(cid, lines, {"origin": "generated", "kind": kind})
 
     def generate(self, rng, n, tier):
@@ -981,6 +1198,10 @@ class C16(Prop):
 
     def mutate_around(self, case, rng, n):
         out = []
+        # a case made of texts of hundreds of KB (nesting / member-count boundaries) is not copied 150 times: the model
+        # alone would need more than its time limit for them
+        if sum(len(l) for l in case.lines) > 100000:
+            n = max(3, n // 30)
         for i in range(n):
             lines = [l for l in case.lines if rng.chance(4, 5) or l == "rm"]
             out.append(E.Case("m%d" % i, lines))
